@@ -1,4 +1,4 @@
-package props
+package c19
 
 import (
 	"encoding/json"
@@ -140,7 +140,7 @@ func c19Exec(c *fw.Ctx, cs c19Case) {
 	cls := c19Class(cs)
 	c.Distinct(cls)
 	if c.WantSample() && len(cs.Comps) >= 2 {
-		c.Sample(map[string]interface{}{"case": cs, "type": typ, "uid": uid, "err": errString(verr)})
+		c.Sample(map[string]interface{}{"case": cs, "type": typ, "uid": uid, "err": fw.ErrString(verr)})
 	}
 	if panicked {
 		c.Report("panic|"+fw.PanicSite(stack), fmt.Sprintf("ValidateCalendarObject panicked: %v", pv), cs)
@@ -167,13 +167,6 @@ func c19Exec(c *fw.Ctx, cs c19Case) {
 	case accept && (typ != mtyp || uid != muid):
 		c.Report("wrong-result|"+cls, fmt.Sprintf("accepted with type=%q uid=%q, want type=%q uid=%q", typ, uid, mtyp, muid), cs)
 	}
-}
-
-func errString(err error) string {
-	if err == nil {
-		return ""
-	}
-	return err.Error()
 }
 
 func c19Run(c *fw.Ctx) {
